@@ -55,8 +55,8 @@ package gentoo
 //@   requires wfRange(gr)
 //@   ensures and: result == (forall i int :: 0 <= i && i < len(gr.constraints) ==> gr.constraints[i].matches(version))   [C02 C20]
 
-//@ lemma c20-equal [C20]: forall c *constraint, v1, v2 *Version :: trigger(c.matches(v1), c.matches(v2)) && c != nil && c.version != nil && v1 != nil && v2 != nil && (c.operator == "=" || c.operator == "!=" || c.operator == "<" || c.operator == "<=" || c.operator == ">" || c.operator == ">=") && v1.Compare(v2) == 0 ==> c.matches(v1) == c.matches(v2)
-//@ lemma c20-convex [C20]: forall c *constraint, a, b, d *Version :: trigger(c.matches(a), c.matches(d), a.Compare(b), b.Compare(d)) && c != nil && c.version != nil && a != nil && b != nil && d != nil && (c.operator == "=" || c.operator == "!=" || c.operator == "<" || c.operator == "<=" || c.operator == ">" || c.operator == ">=") && c.operator != "!=" && a.Compare(b) <= 0 && b.Compare(d) <= 0 && c.matches(a) && c.matches(d) ==> c.matches(b)
+//@ lemma c20-equal [C20]: forall c *constraint, v1, v2 *Version :: trigger(c.matches(v1), c.matches(v2)) && c != nil && c.version != nil && v1 != nil && v2 != nil && wf(v1) && wf(v2) && wf(c.version) && (c.operator == "=" || c.operator == "!=" || c.operator == "<" || c.operator == "<=" || c.operator == ">" || c.operator == ">=") && v1.Compare(v2) == 0 ==> c.matches(v1) == c.matches(v2)
+//@ lemma c20-convex [C20]: forall c *constraint, a, b, d *Version :: trigger(c.matches(a), c.matches(d), a.Compare(b), b.Compare(d)) && c != nil && c.version != nil && a != nil && b != nil && d != nil && wf(a) && wf(b) && wf(d) && wf(c.version) && (c.operator == "=" || c.operator == "!=" || c.operator == "<" || c.operator == "<=" || c.operator == ">" || c.operator == ">=") && c.operator != "!=" && a.Compare(b) <= 0 && b.Compare(d) <= 0 && c.matches(a) && c.matches(d) ==> c.matches(b)
 
 // ---- stored text (C18)
 
@@ -85,6 +85,6 @@ package gentoo
 
 // lifting to whole ranges: an AND-range of comparator constraints treats versions that compare equal alike (the two
 // quantified sides are what Contains returns for v1 and v2, by its `and` clause)
-//@ lemma c20-range-equal [C20] uses c20-equal: forall gr *VersionRange, v1, v2 *Version :: gr != nil && v1 != nil && v2 != nil && wfRange(gr) && (forall i int :: 0 <= i && i < len(gr.constraints) ==> gr.constraints[i].version != nil && (gr.constraints[i].operator == "=" || gr.constraints[i].operator == "!=" || gr.constraints[i].operator == "<" || gr.constraints[i].operator == "<=" || gr.constraints[i].operator == ">" || gr.constraints[i].operator == ">=")) && v1.Compare(v2) == 0 ==> ((forall i int :: 0 <= i && i < len(gr.constraints) ==> gr.constraints[i].matches(v1)) == (forall i int :: 0 <= i && i < len(gr.constraints) ==> gr.constraints[i].matches(v2)))
+//@ lemma c20-range-equal [C20] uses c20-equal: forall gr *VersionRange, v1, v2 *Version :: gr != nil && v1 != nil && v2 != nil && wfRange(gr) && wf(v1) && wf(v2) && (forall i int :: 0 <= i && i < len(gr.constraints) ==> gr.constraints[i].version != nil && wf(gr.constraints[i].version) && (gr.constraints[i].operator == "=" || gr.constraints[i].operator == "!=" || gr.constraints[i].operator == "<" || gr.constraints[i].operator == "<=" || gr.constraints[i].operator == ">" || gr.constraints[i].operator == ">=")) && v1.Compare(v2) == 0 ==> ((forall i int :: 0 <= i && i < len(gr.constraints) ==> gr.constraints[i].matches(v1)) == (forall i int :: 0 <= i && i < len(gr.constraints) ==> gr.constraints[i].matches(v2)))
 // ... and the set a range without != accepts is convex in the order
-//@ lemma c20-range-convex [C20] uses c20-convex: forall gr *VersionRange, a, b, d *Version :: gr != nil && a != nil && b != nil && d != nil && wfRange(gr) && (forall i int :: 0 <= i && i < len(gr.constraints) ==> gr.constraints[i].version != nil && (gr.constraints[i].operator == "=" || gr.constraints[i].operator == "!=" || gr.constraints[i].operator == "<" || gr.constraints[i].operator == "<=" || gr.constraints[i].operator == ">" || gr.constraints[i].operator == ">=") && gr.constraints[i].operator != "!=") && a.Compare(b) <= 0 && b.Compare(d) <= 0 && (forall i int :: 0 <= i && i < len(gr.constraints) ==> gr.constraints[i].matches(a)) && (forall i int :: 0 <= i && i < len(gr.constraints) ==> gr.constraints[i].matches(d)) ==> (forall i int :: 0 <= i && i < len(gr.constraints) ==> gr.constraints[i].matches(b))
+//@ lemma c20-range-convex [C20] uses c20-convex: forall gr *VersionRange, a, b, d *Version :: gr != nil && a != nil && b != nil && d != nil && wfRange(gr) && wf(a) && wf(b) && wf(d) && (forall i int :: 0 <= i && i < len(gr.constraints) ==> gr.constraints[i].version != nil && wf(gr.constraints[i].version) && (gr.constraints[i].operator == "=" || gr.constraints[i].operator == "!=" || gr.constraints[i].operator == "<" || gr.constraints[i].operator == "<=" || gr.constraints[i].operator == ">" || gr.constraints[i].operator == ">=") && gr.constraints[i].operator != "!=") && a.Compare(b) <= 0 && b.Compare(d) <= 0 && (forall i int :: 0 <= i && i < len(gr.constraints) ==> gr.constraints[i].matches(a)) && (forall i int :: 0 <= i && i < len(gr.constraints) ==> gr.constraints[i].matches(d)) ==> (forall i int :: 0 <= i && i < len(gr.constraints) ==> gr.constraints[i].matches(b))
